@@ -1138,6 +1138,14 @@ func (x *Exec) allocRef(tname string, cl *ast.CompositeLit, st *State) (Val, *St
 	top := "0"
 	if a, ok := st.ghost["alloc"]; ok {
 		top = a.(Sc).T
+	} else if ea, ok := func() (Val, bool) {
+		if x.entry == nil {
+			return nil, false
+		}
+		v, ok := x.entry.ghost["alloc"]
+		return v, ok
+	}(); ok {
+		top = ea.(Sc).T // the entry bound was already named by a contract clause
 	} else {
 		top = c.fresh("alloc0", SInt)
 		c.assumeHere(tGe(top, "0"))
